@@ -136,6 +136,31 @@ class Run:
                 self.loop.create_task(waiter())
             self.loop.call_soon(go)
             self.loop.settle()
+        elif kind == "burst":
+            # several emits inside ONE loop iteration (callbacks scheduled by the first have not run yet)
+            _, src, vals = act
+            eids = []
+            for _v in vals:
+                eids.append(self.nemit)
+                self.nemit += 1
+
+            def go_all():
+                for eid, vj in zip(eids, vals):
+                    try:
+                        fut = self.sources[src].emit(val_from_json(vj))
+                    except Exception:
+                        self.failed.append(eid)
+                        continue
+
+                    async def waiter(fut=fut, eid=eid):
+                        try:
+                            await fut
+                            self.done.append(eid)
+                        except Exception:
+                            self.failed.append(eid)
+                    self.loop.create_task(waiter())
+            self.loop.call_soon(go_all)
+            self.loop.settle()
         elif kind == "ack":
             if self.outstanding:
                 f = self.outstanding.pop(0)
